@@ -202,7 +202,7 @@ def make_replay(which):
         if _drv[0] is None:
             _drv[0] = native.build_driver('c04_replay.cc', 'c04_replay', native.MP_SOURCES, ['-O0'])[0]
         p = subprocess.run([_drv[0], which], capture_output=True, text=True, timeout=300)
-        return p.returncode == 10, (p.stdout + p.stderr)[-2500:], _drv[0] + ' ' + which
+        return p.returncode == 10 or p.returncode < 0, (p.stdout + p.stderr)[-2500:], _drv[0] + ' ' + which      # < 0: the real code died on a signal (abort)
     return replay
 
 
@@ -218,14 +218,17 @@ VN = 'include/mp/valcvt-node.h'
 VB = 'include/mp/valcvt-base.h'
 
 
-def h_addentry():
+def h_addentry(copy=False):
     """Many2ManyLink::AddEntry (base of One2ManyLink / Many2OneLink): after adding the entry (src range, target range) the set of linked
     (source position, target position) pairs is exactly the old set plus the pairs of the new entry - merging into the last entry never links
     a position of one item with the image of another.  Real NodeRange::{operator==, ExtendableBy, TryExtendBy, ExtendBy} and IndexRange::operator==;
     the deque is seen through its last entry (the only one AddEntry touches) and the entry pushed; arbitrary witness pair (ws, wt)."""
     SELF = [(r'(?<![\.\w>])pvn_', 'self->pvn_', -1), (r'(?<![\.\w>])ir_', 'self->ir_', -1)]
+    # CopyLink: position k of the source range is linked with position k of the target range (ranges of equal size); Many2Many: every pair
     IN = lambda e: ('(g_ws_node == %s.first.pvn_ && %s.first.ir_.beg_ <= g_ws && g_ws < %s.first.ir_.end_ && '
-                    'g_wt_node == %s.second.pvn_ && %s.second.ir_.beg_ <= g_wt && g_wt < %s.second.ir_.end_)' % ((e,) * 6))
+                    'g_wt_node == %s.second.pvn_ && %s.second.ir_.beg_ <= g_wt && g_wt < %s.second.ir_.end_' % ((e,) * 6) +
+                    (' && (long)g_ws - %s.first.ir_.beg_ == (long)g_wt - %s.second.ir_.beg_' % (e, e) if copy else '') + ')')
+    SAMESZ = lambda e: '((long)%s.first.ir_.end_ - %s.first.ir_.beg_ == (long)%s.second.ir_.end_ - %s.second.ir_.beg_)' % ((e,) * 4)
     parts = ['#include "mp_shim.h"\nint vp_one;\n#define assert(x) __CPROVER_assert(x, "assert(" #x ") of the source holds")\n', '''
 typedef struct { int beg_, end_; } IndexRange;
 typedef struct { int pvn_; IndexRange ir_; } NodeRange;          /* pvn_: the value node (identity only) */
@@ -242,27 +245,90 @@ static void RegisterLinkIndex(int i) { }
                 subst=[(r'(?<![\.\w>])beg_', 'self->beg_', 1), (r'(?<![\.\w>])end_', 'self->end_', 1)], label='mp::pre::IndexRange::operator==', nmatches=1),
              Fn(VN, r'bool operator==\(const NodeRange& nr\) const', '_Bool NR_eq(const NodeRange *self, NodeRange nr)',
                 subst=SELF + [(r'self->ir_ == nr\.ir_', 'IR_eq(&self->ir_, nr.ir_)', 1)], label='mp::pre::NodeRange::operator==', nmatches=1),
-             Fn(VN, r'bool ExtendableBy\(NodeRange nr\) const', '_Bool ExtendableBy(const NodeRange *self, NodeRange nr)', subst=SELF, label='mp::pre::NodeRange::ExtendableBy', nmatches=1),
+             Fn(VB, r'bool IsValid\(\) const \{ return end_>beg_; \}', '_Bool IR_IsValid(const IndexRange *self)',
+                subst=[(r'(?<![\.\w])(?<!->)beg_', 'self->beg_', 1), (r'(?<![\.\w])(?<!->)end_', 'self->end_', 1)], label='mp::pre::IndexRange::IsValid', nmatches=1),
+             Fn(VN, r'bool IsValid\(\) const \{ return pvn_ && ir_\.IsValid\(\); \}', '_Bool NR_IsValid(const NodeRange *self)',
+                subst=[(r'ir_\.IsValid\(\)', 'IR_IsValid(&self->ir_)', 1), (r'(?<![\.\w>])pvn_', 'self->pvn_', 1)], label='mp::pre::NodeRange::IsValid', nmatches=1),
+             Fn(VN, r'bool ExtendableBy\(NodeRange nr\) const', '_Bool ExtendableBy(const NodeRange *self, NodeRange nr)',
+                subst=SELF + [(r'\bnr\.IsValid\(\)', 'NR_IsValid(&nr)', -1)], label='mp::pre::NodeRange::ExtendableBy', nmatches=1),
              Fn(VN, r'void ExtendBy\(NodeRange nr\)', 'void ExtendBy(NodeRange *self, NodeRange nr)',
                 subst=SELF + [(r'ExtendableBy\(nr\)', 'ExtendableBy(self, nr)', 1)], label='mp::pre::NodeRange::ExtendBy', nmatches=1),
              Fn(VN, r'bool TryExtendBy\(NodeRange nr\)', '_Bool TryExtendBy(NodeRange *self, NodeRange nr)',
                 subst=[(r'ExtendableBy\(nr\)', 'ExtendableBy(self, nr)', 1), (r'ExtendBy\(nr\);', 'ExtendBy(self, nr);', 1)], label='mp::pre::NodeRange::TryExtendBy', nmatches=1),
-             Fn(VL, r'void AddEntry\(LinkEntry be\) \{\s*if \(entries_\.empty\(\) \|\|\s*!\(', 'void AddEntry(LinkEntry be)',
-                contract='__CPROVER_requires(VP_VALID(be) && (!g_has_last || VP_VALID(g_last)) && g_npushed == 0 && VP_SAME_NR(g_last0.first, g_last.first) && VP_SAME_NR(g_last0.second, g_last.second)) '
+             Fn(VL, r'void AddEntry\(LinkEntry be\) \{\s*if \(entries_\.empty\(\) \|\|\s*!entries_' if copy else r'void AddEntry\(LinkEntry be\) \{\s*if \(entries_\.empty\(\) \|\|\s*!\(', 'void AddEntry(LinkEntry be)',
+                contract='__CPROVER_requires(VP_VALID(be) && (!g_has_last || VP_VALID(g_last)) && g_npushed == 0 && VP_SAME_NR(g_last0.first, g_last.first) && VP_SAME_NR(g_last0.second, g_last.second)' +
+                         ((' && %s && (!g_has_last || %s)' % (SAMESZ('be'), SAMESZ('g_last'))) if copy else '') + ') '
                          '__CPROVER_ensures(((g_has_last && %s) || (g_npushed == 1 && %s)) == ((g_has_last && %s) || %s)) '
                          '__CPROVER_ensures(g_npushed <= 1 && (!g_has_last ==> g_npushed == 1)) '
                          '__CPROVER_assigns(g_last, g_pushed, g_npushed)' % (IN('g_last'), IN('g_pushed'), IN('g_last0'), IN('be')),
                 subst=[(r'entries_\.empty\(\)', '!g_has_last', 1),
-                       (r'entries_\.back\(\)\.(first|second)==be\.(first|second)', r'NR_eq(&g_last.\1, be.\2)', 2),
-                       (r'entries_\.back\(\)\.(first|second)\.TryExtendBy\(be\.(first|second)\)', r'TryExtendBy(&g_last.\1, be.\2)', 2),
+                       (r'entries_\.back\(\)\.(first|second)==be\.(first|second)', r'NR_eq(&g_last.\1, be.\2)', -1),
+                       (r'entries_\.back\(\)\.(first|second)\.(TryExtendBy|ExtendableBy|ExtendBy)\(be\.(first|second)\)', r'\2(&g_last.\1, be.\3)', 2 if not copy else 4),
                        (r'entries_\.push_back\(be\);', 'vp_push_back(be);', 1), (r'entries_\.size\(\)-1', 'g_npushed', 1)],
-                label='mp::pre::Many2ManyLink::AddEntry', nmatches=1), '''
+                label='mp::pre::%s::AddEntry' % ('CopyLink' if copy else 'Many2ManyLink'), nmatches=1), '''
 void harness(void) { vp_one = 1; g_has_last = nondet_bool(); g_npushed = 0; LinkEntry be;
   g_ws_node = nondet_int(); g_ws = nondet_int(); g_wt_node = nondet_int(); g_wt = nondet_int();
   AddEntry(be); VP_REACH("normal return"); }
 ''']
-    return Harness('C04.Many2ManyLink.AddEntry', 'C04', parts, enforce='AddEntry',
+    return Harness('C04.%s.AddEntry' % ('CopyLink' if copy else 'Many2ManyLink'), 'C04', parts, enforce='AddEntry',
                    stubs=['std::deque entries_ (its last entry and the entry pushed; the others are not touched)', 'BasicLink::RegisterLinkIndex (no-op)'])
+
+
+def h_distr(collect):
+    """Many2ManyLink::Distr / Collect (the transfer of One2ManyLink / Many2OneLink entries): every position of the source range is sent to
+    every position of the target range (Distr; Collect: every target position is gathered into every source position), each pair exactly once,
+    with the value read at the other end, and nothing is written outside the range of the receiving node.  Witness pair (g_w0, g_w);
+    two nested loop contracts.  SetVal's conflict rule is C04.ValueNode.SetNum."""
+    name = 'Collect' if collect else 'Distr'
+    recv, rbeg, rend = ('nr1', 'ir1', 'g_w0') if collect else ('nr2', 'ir2', 'g_w')
+    parts = ['#include "mp_shim.h"\nint vp_one;\n#define assert(x) __CPROVER_assert(x, "assert(" #x ") of the source holds")\n', '''
+typedef struct { int beg_, end_; } IndexRange;
+typedef struct { int pvn_; IndexRange ir_; } NodeRange;
+static IndexRange nr_GetIndexRange(NodeRange nr) { return nr.ir_; }
+static int nr_GetValueNode(NodeRange nr) { return nr.pvn_; }
+int g_w0, g_w; int g_wval;            /* witness positions (source side, target side) and the value stored at the sending witness position */
+int g_hit; int g_send_idx;            /* ghost: transfers of the witness pair; the position the value in flight was read from */
+NodeRange g_nr1, g_nr2;
+#define COLLECT %d
+/* reading a value: GetVal<T>(i0) of the source node (Distr) / vec2.at(i) of the target node (Collect) */
+static int vp_get(int node, int idx) {
+  __CPROVER_assert(node == (COLLECT ? g_nr2.pvn_ : g_nr1.pvn_), "values are read from the sending node");
+  __CPROVER_assert(COLLECT ? (g_nr2.ir_.beg_ <= idx && idx < g_nr2.ir_.end_) : (g_nr1.ir_.beg_ <= idx && idx < g_nr1.ir_.end_), "values are read inside the sending range");
+  g_send_idx = idx; return idx == (COLLECT ? g_w : g_w0) ? g_wval : nondet_int(); }
+static void vp_set(int node, int idx, int val) {
+  __CPROVER_assert(node == (COLLECT ? g_nr1.pvn_ : g_nr2.pvn_), "values are written to the receiving node");
+  __CPROVER_assert(COLLECT ? (g_nr1.ir_.beg_ <= idx && idx < g_nr1.ir_.end_) : (g_nr2.ir_.beg_ <= idx && idx < g_nr2.ir_.end_), "values are written inside the receiving range only");
+  if (idx == (COLLECT ? g_w0 : g_w) && g_send_idx == (COLLECT ? g_w : g_w0)) { __CPROVER_assert(val == g_wval, "the value written is the value read at the sending position"); g_hit++; } }
+#define IN1(x) (g_nr1.ir_.beg_ <= (x) && (x) < g_nr1.ir_.end_)
+#define IN2(x) (g_nr2.ir_.beg_ <= (x) && (x) < g_nr2.ir_.end_)
+''' % (1 if collect else 0)]
+    ghost = 'g_hit, g_send_idx'
+    if not collect:
+        subst = [(r'nr(\d)\.GetIndexRange\(\)', r'nr_GetIndexRange(nr\1)', 2),
+                 (r'const auto& val =', 'int val =', 1), (r'nr1\.GetValueNode\(\)->\s*GetVal<T>\(', 'vp_get(nr_GetValueNode(nr1), ', 1),
+                 (r'nr2\.GetValueNode\(\)->SetVal\(', 'vp_set(nr_GetValueNode(nr2), ', 1)]
+        inner_inv = 'ir2.beg_ <= i && i <= ir2.end_ && g_send_idx == i0 && g_hit == (((IN1(g_w0) && IN2(g_w)) && (g_w0 < i0 || (g_w0 == i0 && g_w < i))) ? 1 : 0)'
+        outer_inv = 'ir1.beg_ <= i0 && i0 <= ir1.end_ && g_hit == ((IN1(g_w0) && IN2(g_w) && g_w0 < i0) ? 1 : 0)'
+        loops = {0: '__CPROVER_assigns(i0, %s) __CPROVER_loop_invariant(%s) __CPROVER_decreases(ir1.end_ - i0)' % (ghost, outer_inv),
+                 1: '__CPROVER_assigns(i, %s) __CPROVER_loop_invariant(%s) __CPROVER_decreases(ir2.end_ - i)' % ('g_hit', inner_inv)}
+        anchor = r'void Distr\(NodeRange nr1, NodeRange nr2\)'
+    else:
+        subst = [(r'nr(\d)\.GetIndexRange\(\)', r'nr_GetIndexRange(nr\1)', 2),
+                 (r'auto& vec2 = nr2\.GetValueNode\(\)->GetValVec<T>\(\);', '', 1),
+                 (r'vec2\.at\(', 'vp_get(nr_GetValueNode(nr2), ', 1), (r'nr1\.GetValueNode\(\)->SetVal\(', 'vp_set(nr_GetValueNode(nr1), ', 1)]      # index expressions are kept as written
+        inner_inv = 'ir2.beg_ <= i && i <= ir2.end_ && g_hit == (((IN1(g_w0) && IN2(g_w)) && (g_w0 < i0 || (g_w0 == i0 && g_w < i))) ? 1 : 0)'
+        outer_inv = 'ir1.beg_ <= i0 && i0 <= ir1.end_ && g_hit == ((IN1(g_w0) && IN2(g_w) && g_w0 < i0) ? 1 : 0)'
+        loops = {0: '__CPROVER_assigns(i0, %s) __CPROVER_loop_invariant(%s) __CPROVER_decreases(ir1.end_ - i0)' % (ghost, outer_inv),
+                 1: '__CPROVER_assigns(i, %s) __CPROVER_loop_invariant(%s) __CPROVER_decreases(ir2.end_ - i)' % (ghost, inner_inv)}
+        anchor = r'void Collect\(NodeRange nr1, NodeRange nr2\)'
+    parts.append(Fn(VL, anchor, 'void %s(NodeRange nr1, NodeRange nr2)' % name,
+                    contract='__CPROVER_requires(0 <= nr1.ir_.beg_ && nr1.ir_.beg_ <= nr1.ir_.end_ && 0 <= nr2.ir_.beg_ && nr2.ir_.beg_ <= nr2.ir_.end_ && g_hit == 0 && nr1.pvn_ == g_nr1.pvn_ && nr1.ir_.beg_ == g_nr1.ir_.beg_ && nr1.ir_.end_ == g_nr1.ir_.end_ && '
+                             'nr2.pvn_ == g_nr2.pvn_ && nr2.ir_.beg_ == g_nr2.ir_.beg_ && nr2.ir_.end_ == g_nr2.ir_.end_) '
+                             '__CPROVER_ensures(g_hit == ((IN1(g_w0) && IN2(g_w)) ? 1 : 0)) __CPROVER_assigns(%s)' % ghost,
+                    subst=subst, loops=loops, label='mp::pre::Many2ManyLink::%s<T>' % name, nmatches=1))
+    parts.append('void harness(void) { vp_one = 1; g_w0 = nondet_int(); g_w = nondet_int(); g_wval = nondet_int(); g_hit = 0; NodeRange a, b; g_nr1 = a; g_nr2 = b; %s(g_nr1, g_nr2); VP_REACH("normal return"); }\n' % name)
+    return Harness('C04.Many2ManyLink.' + name, 'C04', parts, enforce=name, loop_contracts=True, expect_loop_obligations=2,
+                   stubs=['ValueNode::GetVal / GetValVec / SetVal (ghost: positions and the witness value; the conflict rule of SetVal is C04.ValueNode.SetNum)'])
 
 
 VEC = '''
@@ -298,5 +364,5 @@ void harness(void) { vp_one = 1; g_w = nondet_size_t(); g_size = nondet_size_t()
 def _harnesses(tier, seed):
     hs = [h_setnum('int'), h_setnum('double'), h_setnum_order('int'), h_setnum_order('double'), h_reverse()]
     hs += [h_entry(n) for n in ENTRIES]
-    hs += [h_cleanup(False), h_cleanup(True), h_addentry()]
+    hs += [h_cleanup(False), h_cleanup(True), h_addentry(), h_addentry(copy=True), h_distr(False), h_distr(True)]
     return hs
